@@ -1,6 +1,7 @@
 package ring
 
 import (
+	"fmt"
 	"go/types"
 
 	"rscheck/core"
@@ -62,4 +63,135 @@ func HeldOnTraces(c *core.Ctx, fn *core.Fn, entryHeld bool, mu, field string, im
 	return 1, nil, ""
 }
 
-var _ = types.Typ
+// Sections labels every event of a trace with the critical section of
+// <recv>.<mu> it executes in: 0 = the lock is not held, k > 0 = the k-th
+// Lock..Unlock span of the path (deferred unlocks run at exit, where the
+// engine records them). entryHeld: the function starts with the lock held.
+func Sections(t *Trace, recv *Val, mu string, entryHeld bool) []int {
+	sec := make([]int, len(t.Events))
+	cur, n := 0, 0
+	if entryHeld {
+		cur, n = 1, 1
+	}
+	isMu := func(e *Event, name string) bool {
+		return e.Kind == EvCall && e.Callee != nil && e.Callee.Name() == name && e.Callee.Pkg() != nil && e.Callee.Pkg().Path() == "sync" &&
+			e.Recv.IsFieldLeaf(mu) && recv != nil && e.Recv.Leaf.Base != nil && e.Recv.Leaf.Base.Key() == recv.Key()
+	}
+	for i, e := range t.Events {
+		switch {
+		case isMu(e, "Lock"):
+			n++
+			cur = n
+		case isMu(e, "Unlock"):
+			sec[i] = cur
+			cur = 0
+			continue
+		}
+		sec[i] = cur
+	}
+	return sec
+}
+
+// PublishedUnderLock checks the condition-variable discipline for a state
+// change that sleepers' predicates depend on (closing the store, setting the
+// close error): the change happens with the lock held, and a wake-up on
+// `cond` either follows it or sits in the same critical section. Otherwise a
+// sleeper woken by the broadcast can re-acquire the lock, find the old state
+// and go back to sleep, with no wake-up left to come (lost wake-up).
+// change / wake select the events. Returns 1, 0 (witness trace) or -1 when
+// the trace has no such change.
+func PublishedUnderLock(t *Trace, recv *Val, mu string, change, wake func(*Event) bool) int {
+	sec := Sections(t, recv, mu, false)
+	seen := false
+	for i, e := range t.Events {
+		if !change(e) {
+			continue
+		}
+		seen = true
+		if sec[i] == 0 {
+			return 0
+		}
+		ok := false
+		for j, w := range t.Events {
+			if wake(w) && (j > i || sec[j] == sec[i]) {
+				ok = true
+			}
+		}
+		if !ok {
+			return 0
+		}
+	}
+	if !seen {
+		return -1
+	}
+	return 1
+}
+
+// GuardOnTraces is the trace-level complement of GuardTable: for every method
+// of typ that starts without the lock, on every path, each read / store of a
+// guarded field that can change, and each call THROUGH the value of any
+// guarded field (also when that value was copied into a local under the lock
+// and is used after the Unlock), executes with <typ>.<mu> held. One obligation
+// per method: <rule>/<method>.
+func GuardOnTraces(c *core.Ctx, rule, pkgPath, typ, mu string, guarded []string, immutable map[string]bool) {
+	ls := LockHeld(c, pkgPath, typ, mu)
+	pk := c.Pkg(pkgPath)
+	info := pk.TypesInfo
+	pc := CallsIn(c, pkgPath)
+	isG := map[string]bool{}
+	for _, g := range guarded {
+		isG[g] = true
+	}
+	for i, b := range ls.Bodies {
+		if b.Lit != nil || b.Decl.Recv == nil || ls.Entry[i] {
+			continue
+		}
+		fo, _ := info.Defs[b.Decl.Name].(*types.Func)
+		if fo == nil || !pc.Referenced(fo) || core.NamedTypeName(recvT(fo)) != typ {
+			continue
+		}
+		if pc.Internal(fo) {
+			continue // an internal helper is walked as part of its callers, with its real arguments
+		}
+		fn := c.FnOf(fo)
+		if fn == nil {
+			continue
+		}
+		res := RunSym(c, fn, &Sym{AllowCuts: true})
+		key := b.Name
+		if ok, why := res.Usable(); !ok || res.Recv == nil {
+			c.Undecidedf(rule, key, b.Decl.Pos(), "%s", why)
+			continue
+		}
+		var bad *Trace
+		what := ""
+		for _, t := range res.Traces {
+			sec := Sections(t, res.Recv, mu, false)
+			for j, e := range t.Events {
+				own := func(v *Val) bool {
+					return v != nil && v.K == VLeaf && v.Leaf.Kind == LField && isG[v.Leaf.Field.Name()] && v.Leaf.Base != nil && v.Leaf.Base.Key() == res.Recv.Key() &&
+						core.NamedTypeName(v.Leaf.Base.T) == typ
+				}
+				touch := ""
+				switch e.Kind {
+				case EvRead, EvStore:
+					if isG[e.Field.Name()] && !immutable[e.Field.Name()] && e.Base != nil && e.Base.Key() == res.Recv.Key() && core.NamedTypeName(e.Base.T) == typ {
+						touch = "access to " + e.Field.Name()
+					}
+				case EvCall:
+					if own(e.Recv) && !e.Go {
+						touch = "call through " + e.Recv.Leaf.Field.Name()
+					}
+				}
+				if touch != "" && sec[j] == 0 && bad == nil {
+					bad, what = t, touch
+				}
+			}
+		}
+		if bad != nil {
+			c.Check(rule, key, b.Decl.Pos(), false, fmt.Sprintf("%s executes a %s without %s.%s held on some path (a value copied out of the guarded field under the lock and used after the Unlock counts)", b.Name, what, typ, mu), bad.Witness(c)...)
+		} else {
+			c.Okf(rule, key, b.Decl.Pos(), "every path of %s touches the guarded state of %s only with %s held", b.Name, typ, mu)
+		}
+	}
+}
